@@ -48,6 +48,11 @@ func (c04Sim) Decode(raw json.RawMessage) (interface{}, error) {
 func (c04Sim) Gen(prop, tier string, r *rand.Rand) interface{} {
 	l := genLayout(r, pick(r, "tiny", "small", "small", "edge", "four", "page"))
 	c := &C04Case{Layout: l, Clock0: genClock0(r, l)}
+	if chance(r, 0.12) {
+		// edge clock domain: after 2038 (the format's timestamps are unsigned
+		// 32-bit, its durations signed 32-bit)
+		c.Clock0 = between(r, int64(math.MaxInt32)+1, int64(math.MaxUint32)-l.MaxRet()-2*400*86400)
+	}
 	n := len(l.Archs)
 	for a := 0; a < n; a++ {
 		if chance(r, 0.5) {
@@ -109,7 +114,7 @@ func (c04Sim) Gen(prop, tier string, r *rand.Rand) interface{} {
 
 func (c04Sim) Run(e *Env, ci interface{}) {
 	c := ci.(*C04Case)
-	if !c.Layout.Valid() || len(c.Queries) > 500 || c.Clock0 < 946684800 || c.Clock0 > math.MaxInt32 || c.Adv < 0 || c.Adv > 2*400*86400 {
+	if !c.Layout.Valid() || len(c.Queries) > 500 || c.Clock0 < 946684800 || c.Clock0 > math.MaxUint32-400*86400 || c.Adv < 0 || c.Adv > 2*400*86400 {
 		e.Skip("invalid-case")
 		return
 	}
@@ -165,6 +170,11 @@ func (c04Sim) Run(e *Env, ci interface{}) {
 	}
 	now = Now()
 	names := []string{"never-written", "partially-written", "fully-written"}
+	oracle := "C04.shape"
+	if now > math.MaxInt32 {
+		oracle = "C04.shape-after-2038"
+		e.Probe("clock-after-2038")
+	}
 	for qi, q := range c.Queries {
 		e.Op(qi)
 		from := now - q.FromAge
@@ -192,7 +202,7 @@ func (c04Sim) Run(e *Env, ci interface{}) {
 			}
 			desc := fmt.Sprintf("%s file, layout %s, archive id %d, window (now-%d, now-%d]%s", names[fi], c.Layout, q.ID, now-from, now-until, map[bool]string{true: " (from=0)", false: ""}[q.FromZero])
 			if pan != "" {
-				e.Violate("C04.shape", "%s: fetch panicked: %s", desc, pan)
+				e.Violate(oracle, "%s: fetch panicked: %s", desc, pan)
 				return
 			}
 			got := model.ShapeSeries
@@ -202,7 +212,7 @@ func (c04Sim) Run(e *Env, ci interface{}) {
 				got = model.ShapeNone
 			}
 			if got != want.Kind {
-				e.Violate("C04.shape", "%s: outcome %v (err=%v), the contract says %v", desc, got, err, want.Kind)
+				e.Violate(oracle, "%s: outcome %v (err=%v), the contract says %v", desc, got, err, want.Kind)
 				return
 			}
 			if got != model.ShapeSeries {
@@ -210,14 +220,14 @@ func (c04Sim) Run(e *Env, ci interface{}) {
 				continue
 			}
 			if int64(ts.FromTime()) != want.From || int64(ts.UntilTime()) != want.Until || int64(ts.Step()) != want.Step || int64(len(ts.Values())) != want.Count {
-				e.Violate("C04.shape", "%s: got from=now-%d until=now-%d step=%d count=%d, the contract says from=now-%d until=now-%d step=%d count=%d (archive %d)",
+				e.Violate(oracle, "%s: got from=now-%d until=now-%d step=%d count=%d, the contract says from=now-%d until=now-%d step=%d count=%d (archive %d)",
 					desc, now-int64(ts.FromTime()), now-int64(ts.UntilTime()), ts.Step(), len(ts.Values()),
 					now-want.From, now-want.Until, want.Step, want.Count, want.Archive)
 				return
 			}
 			for i, p := range ts.Points() {
 				if int64(p.Time) != want.From+int64(i)*want.Step {
-					e.Violate("C04.shape", "%s: point %d carries time %d, expected from+i*step = %d", desc, i, p.Time, want.From+int64(i)*want.Step)
+					e.Violate(oracle, "%s: point %d carries time %d, expected from+i*step = %d", desc, i, p.Time, want.From+int64(i)*want.Step)
 					return
 				}
 			}
